@@ -11,6 +11,7 @@ import MakoModel.Props.C02
 #print axioms MakoModel.C02.resolve_decode
 #print axioms MakoModel.C02.resolve_other_name
 #print axioms MakoModel.C02.resolve_call
+#print axioms MakoModel.C02.builtin_flags_are_not_context_names
 #print axioms MakoModel.C02.eval_pipeline
 #print axioms MakoModel.C02.scan_expr_spec
 #print axioms MakoModel.C02.scan_filters_spec
